@@ -99,7 +99,7 @@ protected:
 private:
     uint8_t* fillWithString(uint8_t* ptr, const std::string_view str);
 
-    static const uint8_t* initStringView(const uint8_t* ptr, std::string_view& str);
+    const uint8_t* initStringView(const uint8_t* ptr, std::string_view& str) const;
     static std::string_view removeTrailingNulls(std::string_view str);
 };
 
